@@ -74,6 +74,8 @@ META = {
 }
 
 META["note"] += "  " + META.pop("note_growth")
+META["text"] += ("  Final increment (Model/C16Ext, Model/C16C14, Props/C16World parts R-V, Props/C16C14): the reference-shift lemma (bbpd_ref_shift) and reduce(|) / reduce(&) = geobox_union_conservative / geobox_intersection_conservative for ARBITRARY operand lists (on grid, off grid within tolerance, incompatible, other CRS: the same calls succeed and fail); the world-unit excess of enclosing on rotated grids (at most one pixel's world bounding box); BoundingBox.boundary(n) for every n >= 2 (4(n-1)+1 points, closed walk, corners included, every point on the perimeter); map_bounds / aoi / GCPGeoBox.project dispatch with pyproj and the GCP mapping as parameters; C16 o C14: every GridSpec tile is tile (0,0) shifted by whole pixels, | and & of any two tiles succeed, different tiles share no pixel, the union of a row of tiles is the row's GeoBox.")
+
 
 TAG_EPSG = {"1": 3857, "2": 4326, "3": 32633}
 # CRSs WITHOUT an EPSG code (crs.epsg is None): PROJ strings and a WKT definition.  Any shortcut that decides "same
